@@ -1,6 +1,7 @@
 package check
 
 import (
+	"strings"
 	"verif/harness/batch"
 	"verif/harness/gspec"
 )
@@ -82,12 +83,23 @@ func init() {
 	})
 	register("C17", func(r *Run) error {
 		return runB(r, &BSpec{
-			ID: "C17", Profiles: []string{"utf8"},
+			ID: "C17", Profiles: []string{"utf8"}, Gen: withLR([]string{"utf8"}, 5, false),
 			Grammars: [2]int{96, 1600}, Cases: [2]int{600, 1200}, Variants: plainAndOptimized,
 			Rule:        "grammars from profile utf8 (., classes and literals containing U+FFFD, inverted classes, multi-byte runes) and byte strings with truncated sequences, overlongs, surrogates, stray continuation bytes inserted at any rune boundary; both AllowInvalidUTF8 modes; compared with the reference (width-1 U+FFFD decoding): match result, values, action text/pos, and the complete error list ('invalid encoding' at every invalid offset the parse advanced onto, with rule prefix). Non-trivial = >=1 invalid byte advanced onto.",
 			Assumptions: commonAssumptions,
 		})
 	})
+}
+
+// c09Variants: the pair (U, O = U + -optimize-grammar); every 4th grammar names its protected
+// rules with the flag given twice (the flag accumulates).
+func c09Variants(i int, g *gspec.Grammar) []batch.Variant {
+	alt := []string{"-alternate-entrypoints=" + joinComma(g.Entries)}
+	if i%4 == 3 && len(g.Entries) >= 2 {
+		h := len(g.Entries) / 2
+		alt = []string{"-alternate-entrypoints=" + joinComma(g.Entries[:h]), "-alternate-entrypoints=" + joinComma(g.Entries[h:])}
+	}
+	return []batch.Variant{{Name: "U", Flags: append([]string{}, alt...)}, {Name: "O", Flags: append([]string{"-optimize-grammar"}, alt...)}}
 }
 
 func standardOnly(i int, g *gspec.Grammar) []batch.Variant {
@@ -109,7 +121,7 @@ func init() {
 	})
 	register("C16", func(r *Run) error {
 		return runB(r, &BSpec{
-			ID: "C16", Profiles: []string{"diverging", "codeblocks", "diverging", "core"}, Gen: withLR([]string{"diverging", "codeblocks", "diverging", "core"}, 5, false),
+			ID: "C16", Profiles: []string{"diverging", "codeblocks", "stateful", "core"}, Gen: withLR([]string{"diverging", "codeblocks", "diverging", "stateful", "core"}, 6, false),
 			Grammars: [2]int{96, 1600}, Cases: [2]int{400, 800}, Variants: plainAndOptimized,
 			Rule:        "grammars from profiles diverging (repetitions over bodies that can succeed without consuming: (e?)*, (&e)+, (!.)*) and codeblocks/core; rapid draws (entry, input, Memoize/Debug/Statistics/AllowInvalidUTF8, a budget n relative to the need N of the unbounded parse: 1, N-1, N, N+1, N/2, a fraction, 2N+7; fixed budgets for diverging cases); relations: the call returns (watchdog 20 s); n>=N => result identical to the unbounded parse; n<N or diverging => nil value and the 'max number of expressions parsed' error last; code-block events <= n and Stats.ExprCnt <= n+1; without Memoize the complete error list equals the reference's run under the same budget and Stats.ExprCnt of the unbounded run equals the reference count. Non-trivial = n<N or a diverging case.",
 			Assumptions: commonAssumptions,
@@ -140,8 +152,7 @@ func init() {
 			Grammars: [2]int{96, 1600}, Cases: [2]int{500, 1000},
 			Variants: func(i int, g *gspec.Grammar) []batch.Variant {
 				// Tweak already restricted g.Entries to the protected subset of this grammar
-				alt := "-alternate-entrypoints=" + joinComma(g.Entries)
-				return []batch.Variant{{Name: "U", Flags: []string{alt}}, {Name: "O", Flags: []string{"-optimize-grammar", alt}}}
+				return c09Variants(i, g)
 			},
 			Tweak: func(i int, g *gspec.Grammar) {
 				// only protected rules are entry points of the optimized parser
@@ -164,8 +175,16 @@ func init() {
 				g.Entries = keep
 			},
 			Revariant: func(g *gspec.Grammar, old []batch.Variant) []batch.Variant {
-				alt := "-alternate-entrypoints=" + joinComma(g.Entries)
-				return []batch.Variant{{Name: "U", Flags: []string{alt}}, {Name: "O", Flags: []string{"-optimize-grammar", alt}}}
+				split := 0
+				for _, f := range old[len(old)-1].Flags {
+					if strings.HasPrefix(f, "-alternate-entrypoints") {
+						split++
+					}
+				}
+				if split > 1 {
+					return c09Variants(3, g)
+				}
+				return c09Variants(0, g)
 			},
 			Rule:        "grammars from profile optbait (leaf rules referenced from several places, nested choices and sequences, adjacent literals, single-rune literal alternatives next to classes with/without i and ^, predicates, actions, labels on rule references) generated without (U) and with (O) -optimize-grammar, with different subsets of rules as -alternate-entrypoints; rapid draws (protected entry, input); relation: same success/failure, same consumed prefix, same ordered action trace (id, text, pos), final value equal in the normal form that flattens action-less nesting, drops nils and concatenates adjacent byte runs; U is additionally compared with the reference interpreter. Non-trivial = >=1 action ran and >=2 terminal attempts.",
 			Assumptions: commonAssumptions,
@@ -208,8 +227,8 @@ func init() {
 	register("C08", func(r *Run) error {
 		return runB(r, &BSpec{
 			ID: "C08", Grammars: [2]int{96, 1600}, Cases: [2]int{500, 1000}, Variants: lrVariants,
-			Gen: func(r *Run, i int, seed int) *gspec.Grammar { return gspec.LRGrammarGen(i%3 == 2).Example(seed) },
-			Rule: "grammars built from 1-3 nested directly left-recursive rules Li <- Li t1 / .. / Li tn / b1 / .. / bm (tails non-nullable; operands: next level, helper rules with arbitrary non-LR expressions, parenthesised top level; labels, actions, code predicates, state blocks in a third of the grammars), 30% of the levels through one other rule (Li <- Vi t / b ; Vi <- Li u), generated with -support-left-recursion with and without -optimize-parser; rapid draws (entry, input from sampling the denotation + edits, plan with error-returning blocks, InitState); the reference evaluates each LR rule by its denotation (ordered choice of the bases, greedy loop over the ordered choice of the tails, recursive reference = result so far); compared: termination, success, consumed prefix, left-nested value for plain, Memoize and optimized parsers; when the denotation invokes every LR rule at most once per offset also the error list and the state seen by every code block (nothing of the final non-extending attempt retained). Non-trivial = >=2 growth iterations.",
+			Gen:         func(r *Run, i int, seed int) *gspec.Grammar { return gspec.LRGrammarGen(i%3 == 2).Example(seed) },
+			Rule:        "grammars built from 1-3 nested directly left-recursive rules Li <- Li t1 / .. / Li tn / b1 / .. / bm (tails non-nullable; operands: next level, helper rules with arbitrary non-LR expressions, parenthesised top level; labels, actions, code predicates, state blocks in a third of the grammars), 30% of the levels through one other rule (Li <- Vi t / b ; Vi <- Li u), generated with -support-left-recursion with and without -optimize-parser; rapid draws (entry, input from sampling the denotation + edits, plan with error-returning blocks, InitState); the reference evaluates each LR rule by its denotation (ordered choice of the bases, greedy loop over the ordered choice of the tails, recursive reference = result so far); compared: termination, success, consumed prefix, left-nested value for plain, Memoize and optimized parsers; when the denotation invokes every LR rule at most once per offset also the error list and the state seen by every code block (nothing of the final non-extending attempt retained). Non-trivial = >=2 growth iterations.",
 			Assumptions: commonAssumptions,
 		})
 	})
@@ -232,8 +251,8 @@ func init() {
 				}
 				return gspec.LRGrammarGen(true).Example(seed)
 			},
-			Variants: plainAndOptimized,
-			Rule:     "stateful, memoizing, throw/recover, utf8 and left-recursive grammars (the concurrent calls of a case come BEFORE the sequential ones that compute the expected results: the first calls a process makes into a parser package are concurrent ones), parsers built with the race detector (-race, GORACE=halt_on_error=1); rapid draws per case 2-32 jobs (entry, input, Memoize/Statistics, InitState seeds incl. a Cloner list, plan) and GOMAXPROCS in {2,4,16}; every job is first run alone, then all jobs are started together from a barrier; oracle: each concurrent result (value, error text, complete code-block trace incl. state and globalStore snapshots) equals the result of the same job run alone, and the race detector stays silent (any report is a violation). Non-trivial = a case in which the execution windows of at least two jobs overlapped (measured).",
+			Variants:    plainAndOptimized,
+			Rule:        "stateful, memoizing, throw/recover, utf8 and left-recursive grammars (the concurrent calls of a case come BEFORE the sequential ones that compute the expected results: the first calls a process makes into a parser package are concurrent ones), parsers built with the race detector (-race, GORACE=halt_on_error=1); rapid draws per case 2-32 jobs (entry, input, Memoize/Statistics, InitState seeds incl. a Cloner list, plan) and GOMAXPROCS in {2,4,16}; every job is first run alone, then all jobs are started together from a barrier; oracle: each concurrent result (value, error text, complete code-block trace incl. state and globalStore snapshots) equals the result of the same job run alone, and the race detector stays silent (any report is a violation). Non-trivial = a case in which the execution windows of at least two jobs overlapped (measured).",
 			Assumptions: append([]string{"interleavings are sampled by stress under the race detector, not enumerated: a race that needs a rare schedule can be missed"}, commonAssumptions...),
 		})
 	})
